@@ -247,6 +247,10 @@ def check(rep, F, tier, replay=None):
                                "TransactionBuilder::get_implicit_input", "TransactionBuilder::get_deposit", "TransactionBuilder::get_mint_as_values", "TxInputsBuilder::total_value",
                                "WithdrawalsBuilder::get_total_withdrawals", "CertificatesBuilder::get_certificates_deposit", "CertificatesBuilder::get_certificates_refund",
                                "VotingProposalBuilder::get_total_deposit", "TransactionBuilder::add_change_if_needed_with_optional_script_and_datum"], floor=12)
+    from ruleutil import arith_unused_rule
+    arith_unused_rule(rep, F, ["src/builders/", "src/utils.rs"])
+    from ruleutil import ord_eq_rule
+    ord_eq_rule(rep, F)
     return rep.finish(
         EXPLANATION,
         ["Value's PartialEq compares lovelace and every asset (treating absent and empty bundles alike) — its algebra is C14's concern",
